@@ -73,7 +73,7 @@ def check(kind, body, corrupted_typ, what):
         return {'what': f'route announced / stored although attribute {hard[0][0]} is malformed ({hard[0][1]})', 'input': inp, 'observed': str(obs['update'])[:400]}
     # attribute-discard class: the malformed attribute must be gone and every other attribute intact
     try:
-        exp = expected_update(body, asn4, P.addpath_fn(kind))['attribute']
+        exp = expected_update(body, asn4, P.addpath_fn(kind), discarded=frozenset(t for t, _ in bad))['attribute']
     except Exception:
         return None
     got = dict(obs['update'].get('attribute', {}))
